@@ -43,8 +43,11 @@ var props = map[string]propSpec{
 	"C08": {"C08", []string{"echo"}, "", nil},
 	"C09": {"C09", []string{"refresh"}, "", nil},
 	"C10": {"C10", []string{"genflags"}, "", nil},
+	"C11": {"C11", []string{"genaddr", "genexcl"}, "", nil},
 	"C12": {"C12", []string{"genselect"}, "", nil},
+	"C13": {"C13", []string{"gensep"}, "", nil},
 	"C14": {"C14", []string{"gendet"}, "", nil},
+	"C15": {"C15", []string{"gensort"}, "", nil},
 	"C16": {"C16", []string{"genconfig"}, "", nil},
 	"C18": {"C18", []string{"genwhole"}, "", nil},
 	"C20": {"C20", []string{"empty"}, "", nil},
